@@ -80,7 +80,7 @@ def with_drive(case, i, d, extra=None):
     return c
 
 
-def validate_traces(rep, prop, runs, wd, cov, chunk=60):
+def validate_traces(rep, prop, runs, wd, cov, chunk=60, keyfn=None):
     """TLC validates the recorded event traces against TraceSched; only violation kinds that belong to `prop`
     are filed (the others belong to the check of their own property)."""
     total = steps = calls = msgs = 0
@@ -122,6 +122,7 @@ def validate_traces(rep, prop, runs, wd, cov, chunk=60):
     cov["trace_violations_other_properties"] = len(viols) - len(mine)
     for x in mine:
         case, obs = byid.get(x["run"], ({"id": x["run"]}, {}))
-        rep.finding("%s|%s|%s" % (prop, x["kind"], case["id"].split("@")[0]), case, obs, [x],
+        key = keyfn(case, x) if keyfn else "%s|%s|%s" % (prop, x["kind"], case["id"].split("@")[0])
+        rep.finding(key, case, obs, [x],
                     "trace rejected by TraceSched: %s %s (run %s, event %d)" % (x["kind"], x["info"], x["run"], x["line"]))
     return len(mine)
